@@ -61,7 +61,7 @@ FrameOf(fr, name) ==
 RECURSIVE NearestDefining(_, _, _)
 \* nearest ancestor-or-self of p that is in S (the search for node n starts at p = parent of n), 0 if none
 NearestDefining(tr, p, S) ==
-  IF p = 0 THEN 0 ELSE IF p \in S THEN p ELSE NearestDefining(tr, tr[p].parent, S)
+  IF p = 0 THEN 0 ELSE IF p \in S THEN p ELSE LET q == tr[p].parent IN NearestDefining(tr, q, S)
 
 \* ================================================================== STRICT
 RECURSIVE Eval(_, _, _, _), EvalSeq(_, _, _, _, _, _), EvalComp(_, _, _, _, _, _, _)
@@ -161,7 +161,8 @@ ForcePairs(cx, name, pairs, i, w, map, dummy) ==
                    w1 == Emit(r.w, [e |-> "sdef", node |-> n, name |-> name])
                IN IF n \in DOMAIN map
                   THEN WithCtx(Err("DuplicateVariable", w1), StmtCtx2(map[n].dbg, p.dbg))
-                  ELSE ForcePairs(cx, name, pairs, i + 1, w1, MapPut(map, n, [lz |-> p.value, dbg |-> p.dbg]), dummy)
+                  ELSE LET map1 == MapPut(map, n, [lz |-> p.value, dbg |-> p.dbg]) IN
+                       ForcePairs(cx, name, pairs, i + 1, w1, map1, dummy)
 
 \* scoped_store.force(name): the per-node map of a scoped name (memoised in w.ss)
 ForceScopedName(cx, name, w) ==
